@@ -244,6 +244,13 @@ def gen(r, tier):
                 o["block2"] = [0, r.randint(0, 6)]
             ops.append(o)
             observed = True
+            if is_plain(path) and r.chance(0.6):
+                # change (or remove) the observed file and give the 10 s refresh poll time to notice
+                if r.chance(0.8):
+                    ops.append(req(PUT, path, payload=[r.randint(100, 999), r.choice([0, 1, 17, 64, 65, 700, 1024])]))
+                else:
+                    ops.append(req(DELETE, path))
+                ops.append({"op": "sleep", "d": r.choice([10.5, 11.0, 21.0])})
         else:
             ops.append({"op": "sleep", "d": r.choice([0.5, 5.0, 11.0, 21.0])})
         if observed and r.chance(0.2):
